@@ -855,6 +855,9 @@ def get_attr(ctx, o, name, default=NotImplemented):
                     return BoundMethod(a, o.self_v)
                 return a
         if name == "__init__":
+            for k in mro[idx + 1:]:
+                if k.is_dataclass:
+                    return SpecFn("dataclass.__init__", lambda cx, a, kw, _k=k, _s=o.self_v: cx.dataclass_init(_k, _s, a, kw))
             return SpecFn("object.__init__", lambda cx, a, k: None)
         return missing()
     if isinstance(o, ClassVal):
@@ -1427,7 +1430,20 @@ def iterate(ctx, v):
                 return iterate(ctx, ctx.call(BoundMethod(f, v), [], {}))
             f, _ = c.cls.lookup("__getitem__")
             if f is not None:
-                raise U()("iteration through __getitem__")
+                # sequence protocol: x[0], x[1], ... until IndexError
+                from .interp import PyRaise
+                out, i = [], 0
+                while True:
+                    try:
+                        out.append(ctx.call(BoundMethod(f, v), [i], {}))
+                    except PyRaise as e:
+                        if e.exc.tname == "IndexError":
+                            break
+                        raise
+                    i += 1
+                    if i > 100000:
+                        raise U()("unbounded iteration through __getitem__")
+                return out
             ctx.raise_exc("TypeError", (c.cls.name + " object is not iterable",))
     if isinstance(v, str):
         return list(v)
@@ -1597,3 +1613,36 @@ def m_np_argmax(ctx, args, kw):
         if ctx.truthy(ctx.compare(ast.Gt(), items[i], items[best])):
             best = i
     return best
+
+
+import copy as _copy_mod
+
+
+@model(_copy_mod.copy)
+def m_copy(ctx, args, kw):
+    v = args[0]
+    if isinstance(v, Ref):
+        c = ctx.cell(v)
+        if isinstance(c, HObj):
+            f, _ = c.cls.lookup("__copy__")
+            if f is not None:
+                return ctx.call(BoundMethod(f, v), [], {})
+            n = HObj(c.cls)
+            n.fields = dict(c.fields)
+            return ctx.alloc(n)
+        if isinstance(c, HList):
+            return ctx.alloc(HList(items=list(c.items) if c.items is not None else None, seq=c.seq, ek=c.ek))
+        if isinstance(c, HDict):
+            return ctx.alloc(HDict(dict(c.d)))
+        if isinstance(c, HSet):
+            return ctx.alloc(HSet(set(c.s)))
+    if isinstance(v, (Sym, tuple)) or not isinstance(v, Ref):
+        return v if isinstance(v, (Sym, tuple, str, int, float, bool, type(None))) else NotImplemented
+    return NotImplemented
+
+
+@model(_copy_mod.deepcopy)
+def m_deepcopy(ctx, args, kw):
+    v = args[0]
+    ctx.assumed.add("copy.deepcopy: structural copy sharing no mutable object with the original")
+    return ctx.world.verifier.snapshot(ctx, v) if hasattr(ctx.world, "verifier") else NotImplemented
